@@ -294,21 +294,26 @@ fn run_sched(c: &Value, dir: &Path) -> Value {
     match c["sched"].as_str().unwrap_or("") {
         "inproc" => finish(spawn_role("inproc", Some("1"), &ctl, &path)),
         kind => {
+            // Since /repo 87eecb0 the builders of all processes serialise on `<sidecar>.lock`. The schedule still tries to
+            // drive the old race: A is parked holding the locks with its staging directory complete (44); B, which also
+            // found the sidecar missing (42), is released towards the lock. Only if the cross-process lock is broken can B
+            // reach 44 while A is parked; it is then steered through remove_dir_all under the parked reader as before.
             let race = kind == "xproc-race";
-            for h in ["A.hold44", "B.hold44", "B.hold45"] { touch(h); }
+            for h in ["A.hold44", "B.hold42", "B.hold44", "B.hold45"] { touch(h); }
             if race { touch("R.hold46"); }
             let a = spawn_role("A", Some("1"), &ctl, &path);
             let b = spawn_role("B", Some("1"), &ctl, &path);
-            // both processes found the sidecar missing, took their own BUILD_LOCK and completed their staging directory
-            let mut ok = wait_file(&ctl.join("A.at44"), 40) && wait_file(&ctl.join("B.at44"), 40);
+            let mut ok = wait_file(&ctl.join("A.at44"), 40) && wait_file(&ctl.join("B.at42"), 40);
+            touch("B.go42");
+            let b_built = wait_file(&ctl.join("B.at44"), 1);      // false when B is blocked on the cross-process lock
             touch("A.go44");
             let ra = finish(a);                                   // A publishes: the final directory is fresh
             let (rr, rb);
             if race {
                 let r = spawn_role("R", None, &ctl, &path);        // the reader sees A's fresh `.complete` …
                 ok = wait_file(&ctl.join("R.at46"), 40) && ok;     // … and is parked before open(rg_0)
-                touch("B.go44");                                   // B runs remove_dir_all(final) on A's directory
-                ok = wait_file(&ctl.join("B.at45"), 40) && ok;
+                touch("B.go44");
+                if b_built { let _ = wait_file(&ctl.join("B.at45"), 20); }   // B ran remove_dir_all(final) on A's directory
                 touch("R.go46");
                 rr = finish(r);
                 touch("B.go45");
@@ -321,7 +326,7 @@ fn run_sched(c: &Value, dir: &Path) -> Value {
             let r2 = finish(spawn_role("R2", None, &ctl, &path));
             // a participant that could not be spawned / printed nothing is a harness artefact, not an observation
             let harness_ok = ![&ra, &rb, &rr, &r2].iter().any(|v| v.get("harness").is_some());
-            json!({"sched_ok": ok && harness_ok, "A": ra, "B": rb, "R": rr, "R2": r2})
+            json!({"sched_ok": ok && harness_ok, "b_built_under_a": b_built, "A": ra, "B": rb, "R": rr, "R2": r2})
         }
     }
 }
